@@ -1,20 +1,12 @@
-"""Registry of the property checks: which Lean modules hold the property's theorems, which
-harness components tie the model to /repo, and how many generated cases each tier runs."""
+"""Registry of the property checks: one JSON file per claimed property in tools/props/
+(which Lean modules hold the property's theorems, which harness components tie the model to
+/repo, how many generated cases each tier runs, the level text for the manifest)."""
+import json, os, glob
 
-PROPS = {
-    "C09": {
-        "modules": ["StsModel.Props.C09"],
-        "components": [
-            {"name": "ranges", "quick": 3000, "thorough": 200000},
-        ],
-        "level_text": "Soundness of the receiver's byte-range record is proved in Lean for all records and queries (insertion keeps/drops exactly what it reports, 'complete' and 'part exists' imply coverage of every byte, arbitrary overlapping/unsorted/inverted ranges); the model functions are tied to stage/companion.go by differential execution on generated and corpus range sequences on every run.",
-        "level_note": "Trusted: Lean kernel; the hand-written model of addCompanionPart/companionPartExists/isCompanionComplete and its differential tie (harness component `ranges`, tag-guarded exports); Go int64 modelled as Int.",
-        "partial": [],
-        "assumptions": [
-            "int64 arithmetic of the Go code is modelled with unbounded Int (no property here is about overflow)",
-        ],
-    },
-}
+_here = os.path.dirname(os.path.abspath(__file__))
+PROPS = {}
+for _p in sorted(glob.glob(os.path.join(_here, "props", "C*.json"))):
+    PROPS[os.path.basename(_p)[:-5]] = json.load(open(_p))
 
 # properties not (yet) claimed, with the reason that goes into MANIFEST.not_applicable
 NOT_CLAIMED = {}
